@@ -16,7 +16,7 @@
                                 of the presentation-form name s (offset 0, or
                                 just after a dot preceded by an even number of
                                 backslashes, the final dot excluded). *)
-From Dns Require Import Model.Serve Model.Mux Proofs.ServeProofs Proofs.MuxProofs.
+From Dns Require Import Model.Serve Model.Mux Proofs.ServeProofs Proofs.MuxProofs Proofs.MuxLabelProofs.
 Open Scope N_scope.
 
 (* ---- admission: exactly once / not at all / accounted ---- *)
@@ -156,6 +156,18 @@ Theorem match_longest_suffix :
                lookup z (skipn o (canonical_name q)) = None) ->
     mux_match z q t = Ok (Some h).
 Proof. exact @mux_match_longest. Qed.
+
+(* "Label boundary" is the wire-level notion: for a question name printed from
+   its wire labels ls (show_name = the presentation UnpackDomainName produces,
+   with dots, backslashes and non-printing octets inside labels escaped) the
+   offsets match visits in the canonical name are exactly the offsets at which
+   the labels of ls begin - one candidate suffix per label, none inside a label. *)
+Theorem label_boundaries_are_wire_labels :
+  forall (ls : list label) (p : nat),
+    ls <> [] -> Forall wfb ls ->
+    (label_start (canonical_name (show_name ls)) p <->
+     exists k, (k < length ls)%nat /\ p = length (show_labels (firstn k ls))).
+Proof. exact label_start_canonical_wire. Qed.
 
 (* ... ignoring ASCII case in the question name ... *)
 Theorem match_ignores_case :
